@@ -28,6 +28,8 @@ type batteryResult struct {
 	Output   string           `json:"output,omitempty"`
 	Secs     float64          `json:"secs"`
 	Err      string           `json:"error,omitempty"`
+	Stats    map[string]int   `json:"stats,omitempty"`
+	Samples  []string         `json:"samples,omitempty"`
 }
 
 // runBattery runs the replay battery of a property against the real code of
@@ -43,17 +45,18 @@ func (V *Verifier) runBattery(prop string) *batteryResult {
 	out := filepath.Join(V.Workdir, "battery-"+prop+".json")
 	repo := V.P.RepoDir
 	ovm := map[string]map[string]string{"Replace": {filepath.Join(repo, "zz_bxv_replay_test.go"): "/verif/replay/zz_bxv_replay_test.go",
-		filepath.Join(repo, "zz_bxv_c11_test.go"): "/verif/replay/zz_bxv_c11_test.go"}}
+		filepath.Join(repo, "zz_bxv_c11_test.go"):      "/verif/replay/zz_bxv_c11_test.go",
+		filepath.Join(repo, "zz_bxv_refparse_test.go"): "/verif/replay/zz_bxv_refparse_test.go"}}
 	b, _ := json.Marshal(ovm)
 	_ = os.WriteFile(ov, b, 0o644)
-	args := []string{"test", "-tags", "verif", "-overlay", ov, "-vet=off", "-count=1", "-timeout", "300s", "-run", "^TestBxvBattery$"}
+	args := []string{"test", "-tags", "verif", "-overlay", ov, "-vet=off", "-count=1", "-timeout", "1500s", "-run", "^TestBxvBattery$"}
 	if prop == "C12" {
 		args = append(args, "-race")
 	}
 	args = append(args, ".")
 	cmd := exec.Command("go", args...)
 	cmd.Dir = repo
-	cmd.Env = append(os.Environ(), "GOFLAGS=-mod=mod", "GOPROXY=off", "GOSUMDB=off", "GOTOOLCHAIN=local", "BXV_PROP="+prop, "BXV_OUT="+out)
+	cmd.Env = append(os.Environ(), "GOFLAGS=-mod=mod", "GOPROXY=off", "GOSUMDB=off", "GOTOOLCHAIN=local", "BXV_PROP="+prop, "BXV_OUT="+out, "BXV_TIER="+V.Tier)
 	res.Cmd = fmt.Sprintf("cd %s && BXV_PROP=%s BXV_OUT=<file> go %s", repo, prop, strings.Join(args, " "))
 	t0 := time.Now()
 	o, err := cmd.CombinedOutput()
@@ -64,6 +67,8 @@ func (V *Verifier) runBattery(prop string) *batteryResult {
 		if json.Unmarshal(jb, &parsed) == nil {
 			res.Cases = parsed.Cases
 			res.Failures = parsed.Failures
+			res.Stats = parsed.Stats
+			res.Samples = parsed.Samples
 		}
 	} else if err != nil {
 		res.Err = "battery did not run to completion: " + err.Error()
